@@ -89,6 +89,9 @@ def main():
     items.append(("best_block_size", rust_int(find(best, r"block_size: (\d+),", "best block_size").group(1)), "o_block_size options_best"))
     items.append(("best_max_partition_order", rust_int(find(best, r"max_partition_order: (\d+),", "best max_partition_order").group(1)), "o_max_partition_order options_best"))
     items.append(("best_max_lpc_order", rust_int(find(best, r"max_lpc_order: NonZero::new\((\d+)\),", "best max_lpc_order").group(1)), "match o_max_lpc_order options_best with Some v => v | None => 0 end"))
+    # Encoder::encode refuses a frame larger than the stream's block size (repo fix 6387abb; Finalize.encoder_encode models it)
+    encf = section(enc, r"fn encode\(&mut self, frame: &Frame\) -> Result<\(\), Error> \{", "Encoder::encode", 1600)
+    find(encf, r"frame\.pcm_frames\(\) > usize::from\(self\.blocks\.streaminfo\(\)\.maximum_block_size\)", "Encoder::encode: a frame larger than the block size is refused")
     # the placeholder / finalize table caps
     if len(re.findall(r"\.take\(SeekTable::MAX_POINTS\)", enc)) < 3:
         # Encoder::new, finalize_inner (padding case), generate_seektable
